@@ -9,7 +9,7 @@ Driver handler for C17 (`urls_from_html`, `links_from_html`).
   driver also checks that the model's `utf8 s` is the shipped byte list;
 * `{"f":"links_from_html","doc":s,"bytes":bool,"base":b,"canonicalize":…,"unique":…,
    "proto":{href:bool},"join":{href:str|{"error":…}},"isurl":{url:bool},
-   "canon":{url:str|{"error":…}}}` → `{"links":[…],"error":null|name}`: the whole pipeline of
+   "canon":{url:str|{"error":…}}}` → `{"links":[…]}` plus `"error":name` when the generator raised: the whole pipeline of
   the model (scan, strip, unescape, filter chain).  The tables are the values of the
   *parameter* functions of the model, computed by the harness with the real functions; a
   missing entry is an error of its own kind (`missing:<table>`), never a default.
@@ -104,8 +104,8 @@ def handle (f : String) (j : Json) : Option Json :=
       | some m => some (jerr m)
       | none =>
         let r := links E cfg base hs
-        some (Json.mkObj [("links", jstrs (r.1.map unchars)),
-          ("error", match r.2 with | none => .null | some e => .str (errName e))])
+        some (Json.mkObj ([("links", jstrs (r.1.map unchars))] ++
+          (match r.2 with | none => [] | some e => [("error", Json.str (errName e))])))
   | _ => none
 
 end Driver.C17
